@@ -137,7 +137,10 @@ func c14(c *Ctx) {
 	}
 	r.Floor("per-element pointers into loop variables (DOND)", na, 1)
 	var entries []*ssa.Function
-	for _, nme := range []string{"codecs.(*H265Payloader).Payload", "codecs.(*H265Packet).Unmarshal", "codecs.(*H265Packet).IsPartitionHead"} {
+	// the per-form parsers are exported types of their own: they are analysed standalone as well as below
+	// H265Packet.Unmarshal (whose length check makes their own first guard redundant in that context)
+	for _, nme := range []string{"codecs.(*H265Payloader).Payload", "codecs.(*H265Packet).Unmarshal", "codecs.(*H265Packet).IsPartitionHead",
+		"codecs.(*H265SingleNALUnitPacket).Unmarshal", "codecs.(*H265AggregationPacket).Unmarshal", "codecs.(*H265FragmentationUnitPacket).Unmarshal", "codecs.(*H265PACIPacket).Unmarshal"} {
 		if f := p.Func(nme); f != nil {
 			entries = append(entries, f)
 		} else {
